@@ -3291,6 +3291,11 @@ def unpickle_setwrapper(obj, attrname, items):
     wrapper = wrapper_cls(obj, attr)
     setdata = obj._vals_.get(attr)
     if setdata is None: setdata = obj._vals_[attr] = SetData()
+    items = set(items) - setdata  # the members of a many-to-many collection are known from the pickle only
+    if setdata.removed: items -= setdata.removed
+    if items:
+        setdata |= items
+        if attr.reverse.is_collection: attr.reverse.db_reverse_add(items, obj)
     setdata.is_fully_loaded = True
     setdata.absent = None
     setdata.count = len(setdata)
